@@ -1,4 +1,5 @@
 import VermouthModel.C02
+import VermouthModel.C02_Hist
 import Generated.C02Tables
 open Proto C02
 
@@ -31,6 +32,18 @@ def molOf (args : List Tok) : Option Mol := do
            inters := ← (← inters.list?).mapM (namedOf (fun v => do (← v.list?).mapM interOf)),
            pre := ← (← pre.list?).mapM (namedOf strs?),
            post := ← (← post.list?).mapM (namedOf strs?) }
+  | _ => none
+
+def editOf (t : Tok) : Option Edit := do
+  match ← t.list? with
+  | [Tok.int 0, k, v] => pure (.setAtomid (← k.int?) (← v.optInt?))
+  | [Tok.int 1, k, f, v] => pure (.setField (← k.int?) (← f.nat?) (← v.str?))
+  | [Tok.int 2, a] => pure (.addNode (← atomOf a))
+  | [Tok.int 3, k] => pure (.removeNode (← k.int?))
+  | [Tok.int 4, n, i] => pure (.addInter (← n.str?) (← interOf i))
+  | [Tok.int 5, n, idx] => pure (.removeInter (← n.str?) (← idx.nat?))
+  | [Tok.int 6, n, idx, d, nd, g] =>
+      pure (.setMeta (← n.str?) (← idx.nat?) (← d.optStr?) (← nd.optStr?) (← g.optStr?))
   | _ => none
 
 def encErr : Err → String
@@ -75,7 +88,13 @@ def handle (_ : Unit) (toks : List Tok) : Unit × String :=
           let rtChr := isOkEq (parse arityTable text) (canon m)
           pure ("ok " ++ encBool wf ++ " " ++ encBool co ++ " " ++ encBool (!wf || rtTok) ++ " "
                 ++ encBool (!(wf && co) || rtChr) ++ " " ++ encStr text)
-    | [Tok.str "wf", _] => none
+    | Tok.str "hist" :: rounds :: args => do
+        let m ← molOf args
+        let rs ← (← rounds.list?).mapM (fun r => do (← r.list?).mapM editOf)
+        pure (encList ((session m rs).map fun o =>
+          match o with
+          | .ok ls => encList ["1", encStr (render ls)]
+          | .error e => encList ["0", encStr (encErr e)]))
     | [Tok.str "parse", t] => do
         let s ← t.str?
         match parse arityTable s with
